@@ -237,6 +237,21 @@ CHECKS = {
         "gate: all triples around the running version + suffixes.",
         note="finite JSON numbers only.",
         design="DESIGN.md section 3 C20"),
+    "C15": dict(
+        engine="gates",
+        technique="stateless exploration of every completion order of the "
+        "worker threads of the real parallel_map.rs (gate harness with a "
+        "quiescence-driven controller, DFS over release choices) + "
+        "end-to-end differential grid against the Python reader",
+        text="parallel_map for n<=5 (7), T<=4 (5): every order in which "
+        "items finish, every early-drop position; outputs in order, "
+        "bounded pulls, drop terminates, no thread left. End to end with "
+        "the extension rebuilt from the working tree: 4 compressions x "
+        "1..5(6) shards x thread counts below/at/above x 2 layouts x "
+        "shuffle 0 / >0, abandonment at every position + fresh pass.",
+        note="completion-order granularity; quiescence judged from /proc "
+        "(misjudgement = harness error).",
+        design="DESIGN.md section 3 C15, section 2 E5"),
 }
 
 NOT_YET = "check not built yet in this session (planned, see DESIGN.md section 3)"
@@ -312,6 +327,12 @@ def main() -> None:
              "serves_properties": ["C05"],
              "kind_free_text": "single-fault enumeration on committed "
                                "datasets"},
+            {"name": "gates", "path": "rs/pmap_mc + vf/pmap_mc.py",
+             "serves_properties": ["C15", "C07", "C14"],
+             "kind_free_text": "Rust harness crate including "
+                               "/repo/rust/src/parallel_map.rs by #[path]; "
+                               "controller releases gated items one at a "
+                               "time, Python drives the DFS"},
             {"name": "sched", "path": "vf/sched.py + vf/lazypool_mc.py",
              "serves_properties": ["C13", "C14", "C02", "C07"],
              "kind_free_text": "cooperative scheduler + choice-sequence DFS "
